@@ -473,3 +473,48 @@ class SetAttrAttribute(FunctionContract):
 
 
 CONTRACTS.append(SetAttrAttribute())
+
+
+class AddAttribute(FunctionContract):
+    """add_attribute(name, value): a name that is already a variable or a registered attribute is refused (DuplicateNameError) and nothing
+    changes; otherwise the value is stored under that name and the name is registered exactly once; no series is touched."""
+    qualname = 'fsic.core.containers.VectorContainer.add_attribute'
+    props = ('C09',)
+    required_covers = ('added', 'duplicate')
+
+    def setup(self, interp, scenario):
+        ctx = interp.ctx
+        e = {'scenario': scenario}
+        obj = make(interp, e)
+        variables, registered = ['X', 'Y'], ['_attributes', 'span', 'index', '_strict', 'note']
+        obj.fields['index'] = list(variables)
+        obj.fields['_attributes'] = list(registered)
+        e['index0'], e['attrs0'] = list(variables), list(registered)
+        e['name'] = ctx.fresh('name', STR)
+        e['value'] = object()
+        e['inputs'] = {'name': e['name']}
+        return Call([SStr(e['name']), e['value']], {}, self_obj=obj, entry=e)
+
+    def post(self, interp, scenario, call, out):
+        ctx = interp.ctx
+        e = call.entry
+        obj = e['obj']
+        name = e['name']
+        taken = z3.Or(*[name == z3.StringVal(x) for x in e['index0'] + e['attrs0']])
+        ctx.prove(z3.And(obj.ndstore.data == e['data0'], z3.BoolVal(obj.fields['index'] == e['index0'])), 'no_series_and_no_declaration_is_touched', 'frame')
+        stored = [(k, v) for k, v in obj.fields.items() if v is e['value']]
+        attrs = obj.fields['_attributes']
+        if out.kind == 'raise':
+            ctx.cover('duplicate')
+            ctx.prove(z3.And(z3.BoolVal(exc_class(out.exc) is DuplicateNameError), taken), 'DuplicateNameError_only_for_a_name_already_in_use', 'raises')
+            ctx.prove(z3.BoolVal(not stored and attrs == e['attrs0']), 'a_refused_attribute_changes_nothing', 'frame')
+            return
+        ctx.cover('added')
+        ctx.prove(z3.Not(taken), 'a_name_already_in_use_is_refused', 'raises')
+        ok = len(stored) == 1 and V.is_sym(stored[0][0]) and z3.eq(V.z3_of(stored[0][0]), name)
+        ctx.prove(z3.BoolVal(ok), 'the_value_is_stored_under_the_name', 'ensures')
+        ok2 = isinstance(attrs, list) and attrs[:len(e['attrs0'])] == e['attrs0'] and len(attrs) == len(e['attrs0']) + 1 and V.is_sym(attrs[-1]) and z3.eq(V.z3_of(attrs[-1]), name)
+        ctx.prove(z3.BoolVal(ok2), 'the_name_is_registered_exactly_once_after_the_existing_attributes', 'ensures', note=str(attrs)[:120])
+
+
+CONTRACTS.append(AddAttribute())
